@@ -241,14 +241,14 @@ open TdVerif.C14
 def plain (ms : List Mod) : List Node := ms.map (fun m => Node.mod { m := m })
 
 theorem fwdKids_plain : ∀ (ms : List Mod) (e : Env),
-    fwdKids (plain ms) false { arg := e, exec := none } =
+    fwdKids false (plain ms) false { arg := e, exec := none } =
       match run ms e with
       | some r => .ok { arg := r, exec := none }
-      | none => fwdKids (plain ms) false { arg := e, exec := none }
+      | none => fwdKids false (plain ms) false { arg := e, exec := none }
   | [], e => by simp [plain, fwdKids, run]
   | m :: ms, e => by
     have ih := fwdKids_plain ms
-    simp only [plain, List.map_cons, fwdKids, Bool.false_and, Bool.false_eq_true, if_false, fwdNode, fwdMod,
+    simp only [plain, List.map_cons, fwdKids, Bool.false_and, Bool.false_eq_true, if_false, fwdNode, fwdMod, skips,
       Exec.cur, Option.getD_none, run, runMod]
     cases hr : readArgs e m.ins with
     | none => rfl
@@ -264,10 +264,10 @@ theorem fwdKids_plain : ∀ (ms : List Mod) (e : Env),
 execution-object bookkeeping) returns the input object itself, holding exactly what `run` computes;
 so the theorems above are statements about the function the correspondence check exercises. -/
 theorem forward_plain (ms : List Mod) (e r : Env) (h : run ms e = some r) :
-    fwdNode (.seq (plain ms) none none false) e = .ok { arg := r, fresh := none } := by
+    fwdNode false (.seq (plain ms) none none false) e = .ok { arg := r, fresh := none } := by
   have := fwdKids_plain ms e
   simp only [h] at this
-  simp [fwdNode, this]
+  simp [fwdNode, skips, this]
 
 theorem nodesInOut_plain : ∀ (ms : List Mod) (ins outs : List Key),
     nodesInOut (plain ms) ins outs = inOutAux ms ins outs
@@ -282,6 +282,203 @@ theorem keys_plain (ms : List Mod) :
     (Node.seq (plain ms) none none false).ins = inKeys ms ∧
     (Node.seq (plain ms) none none false).outs = outKeys ms := by
   simp [Node.ins, Node.outs, nodesInOut_plain, inKeys, outKeys]
+
+end TdVerif.Props.C14
+
+/-! ## `tensordict_out` -/
+namespace TdVerif.Props.C14
+open TdVerif.C14
+
+theorem fwdKids_copy : ∀ (skip : Bool) (kids : List Node) (pt : Bool) (s : Exec), s.exec.isSome = true →
+    (∀ s', fwdKids skip kids pt s = .ok s' → s'.arg = s.arg ∧ s'.exec.isSome = true) ∧
+    (∀ a al, fwdKids skip kids pt s = .error (a, al) → a = s.arg)
+  | _, [], _, s, h => by
+    constructor
+    · intro s' hs; simp [fwdKids] at hs; subst hs; exact ⟨rfl, h⟩
+    · intro a al hs; simp [fwdKids] at hs
+  | skip, n :: ns, pt, s, h => by
+    obtain ⟨e, he⟩ := Option.isSome_iff_exists.1 h
+    simp only [fwdKids]
+    split
+    · exact fwdKids_copy skip ns pt s h
+    · cases hn : fwdNode skip n s.cur with
+      | error r =>
+        obtain ⟨cur', al⟩ := r
+        constructor
+        · intro s' hs; simp at hs
+        · intro a al' hs
+          simp only [Except.error.injEq, Prod.mk.injEq] at hs
+          rw [← hs.1]; simp [Exec.afterErr, he]
+      | ok o =>
+        have hafter : (s.after o).arg = s.arg ∧ (s.after o).exec.isSome = true := by
+          simp [Exec.after, he]
+        have ih := fwdKids_copy skip ns pt (s.after o) hafter.2
+        constructor
+        · intro s' hs
+          have := ih.1 s' hs
+          exact ⟨this.1.trans hafter.1, this.2⟩
+        · intro a al hs
+          exact (ih.2 a al hs).trans hafter.1
+
+/-- **tensordict_out_input_untouched** — a sequence called with `tensordict_out` never modifies its input,
+whatever its modules are (in-place or not, nested, partial_tolerant, with selections), whether the call
+returns or raises: the modules run on a copy. -/
+theorem tensordict_out_input_untouched (skip : Bool) (kids : List Node) (sel : Option (List Key)) (pt : Bool)
+    (arg out : Env) :
+    (∀ a o al, fwdSeqOut skip kids sel pt arg out = .ok (a, o, al) → a = arg) ∧
+    (∀ a al, fwdSeqOut skip kids sel pt arg out = .error (a, al) → a = arg) := by
+  have h := fwdKids_copy skip kids pt { arg := arg, exec := some arg } rfl
+  unfold fwdSeqOut
+  constructor
+  · intro a o al hr
+    cases hk : fwdKids skip kids pt { arg := arg, exec := some arg } with
+    | error e => simp [hk] at hr
+    | ok s =>
+      simp only [hk, Except.ok.injEq, Prod.mk.injEq] at hr
+      rw [← hr.1]; exact (h.1 s hk).1
+  · intro a al hr
+    cases hk : fwdKids skip kids pt { arg := arg, exec := some arg } with
+    | error e =>
+      obtain ⟨a', al'⟩ := e
+      simp only [hk, Except.error.injEq, Prod.mk.injEq] at hr
+      rw [← hr.1]; exact h.2 a' al' hk
+    | ok s => simp [hk] at hr
+
+end TdVerif.Props.C14
+
+namespace TdVerif.Props.C14
+open TdVerif.C14
+
+theorem foldl_set_other (t : String) (k : Key) (hk : headIs t k = false) :
+    ∀ (l : List (Key × V)) (d : Env), (∀ kv ∈ l, headIs t kv.1 = true) →
+      Env.get? (l.foldl (fun d kv => d.set kv.1 kv.2) d) k = d.get? k
+  | [], _, _ => rfl
+  | kv :: l, d, h => by
+    simp only [List.foldl_cons]
+    rw [foldl_set_other t k hk l _ (fun kv' hkv' => h kv' (List.mem_cons_of_mem _ hkv')), Env.get?_set]
+    have : kv.1 ≠ k := by
+      intro e; have := h kv (by simp); rw [e, hk] at this; cases this
+    simp [this]
+
+theorem foldl_setif_other (t : String) (k : Key) (hk : headIs t k = false) (c : Key × V → Bool) :
+    ∀ (l : List (Key × V)) (d : Env), (∀ kv ∈ l, headIs t kv.1 = true) →
+      Env.get? (l.foldl (fun d kv => if c kv then d.set kv.1 kv.2 else d) d) k = d.get? k
+  | [], _, _ => rfl
+  | kv :: l, d, h => by
+    simp only [List.foldl_cons]
+    rw [foldl_setif_other t k hk c l _ (fun kv' hkv' => h kv' (List.mem_cons_of_mem _ hkv'))]
+    split
+    · rw [Env.get?_set]
+      have : kv.1 ≠ k := by
+        intro e; have := h kv (by simp); rw [e, hk] at this; cases this
+      simp [this]
+    · rfl
+
+/-- **update_keys_frame** — `dest.update(src, keys_to_update=K)` (as the sequences call it on `tensordict_out`,
+on the input, or on a fresh tensordict) leaves every entry of `dest` whose first key component is not the
+first component of a key of `K` exactly as it was. -/
+theorem update_keys_frame (dest src : Env) (K : List Key) (k : Key)
+    (hk : ∀ t, k.head? = some t → K.any (headIs t) = false) :
+    Env.get? (updKeys dest src K) k = dest.get? k := by
+  unfold updKeys
+  split
+  · rfl
+  · generalize topNames src = names
+    induction names generalizing dest with
+    | nil => rfl
+    | cons t names ih =>
+      simp only [List.foldl_cons]
+      rw [ih]
+      by_cases hKt : K.any (headIs t) = true
+      · -- this step is about entries headed by `t`; `k` is not one of them
+        have hkt : headIs t k = false := by
+          cases hh : k.head? with
+          | none => simp [headIs, hh]
+          | some t' =>
+            by_cases e : t' = t
+            · subst e; have := hk t' hh; rw [this] at hKt; cases hKt
+            · simp [headIs, hh]
+              intro e'; exact e e'
+        simp only [hKt, Bool.not_true, Bool.false_eq_true, if_false]
+        split
+        · split
+          · rfl
+          · exact foldl_setif_other t k hkt _ _ _ (fun kv hkv => by simpa using (List.mem_filter.1 hkv).2)
+        · rw [foldl_set_other t k hkt _ _ (fun kv hkv => by simpa using (List.mem_filter.1 hkv).2)]
+          rw [Env.get?_filter dest (fun k => !headIs t k) k]; simp [hkt]
+      · simp [hKt]
+
+end TdVerif.Props.C14
+
+/-! ## nested sequences run as their flattening -/
+namespace TdVerif.Props.C14
+open TdVerif.C14
+
+mutual
+/-- default options all the way down: in-place modules without selection, sequences with `inplace=None`,
+no selected out-keys, not partial_tolerant -/
+def PlainNode : Node → Prop
+  | .mod x => x.inplace = .yes ∧ x.sel = none
+  | .seq kids ip sel pt => ip = none ∧ sel = none ∧ pt = false ∧ PlainNodes kids
+def PlainNodes : List Node → Prop
+  | [] => True
+  | n :: ns => PlainNode n ∧ PlainNodes ns
+end
+
+mutual
+/-- the modules of a (nested) sequence in execution order -/
+def flatNode : Node → List Mod
+  | .mod x => [x.m]
+  | .seq kids _ _ _ => flatNodes kids
+def flatNodes : List Node → List Mod
+  | [] => []
+  | n :: ns => flatNode n ++ flatNodes ns
+end
+
+mutual
+theorem fwdNode_nested : ∀ (n : Node), PlainNode n → ∀ (e r : Env), run (flatNode n) e = some r →
+    fwdNode false n e = .ok { arg := r, fresh := none }
+  | .mod x, hp, e, r, hr => by
+    simp only [PlainNode] at hp
+    simp only [flatNode, run] at hr
+    cases hm : runMod x.m e with
+    | none => simp [hm] at hr
+    | some e' =>
+      simp only [hm, Option.some.injEq] at hr; subst hr
+      obtain ⟨args, ha, he⟩ := runMod_inv hm
+      simp [fwdNode, fwdMod, skips, ha, hp.1, applyHook, hp.2, he]
+  | .seq kids ip sel pt, hp, e, r, hr => by
+    simp only [PlainNode] at hp
+    obtain ⟨rfl, rfl, rfl, hk⟩ := hp
+    simp only [flatNode] at hr
+    have := fwdKids_nested kids hk e r hr
+    simp [fwdNode, skips, this]
+theorem fwdKids_nested : ∀ (kids : List Node), PlainNodes kids → ∀ (e r : Env), run (flatNodes kids) e = some r →
+    fwdKids false kids false { arg := e, exec := none } = .ok { arg := r, exec := none }
+  | [], _, e, r, hr => by
+    simp only [flatNodes, run, Option.some.injEq] at hr; subst hr
+    simp [fwdKids]
+  | n :: ns, hp, e, r, hr => by
+    simp only [PlainNodes] at hp
+    simp only [flatNodes, run_append] at hr
+    cases h1 : run (flatNode n) e with
+    | none => simp [h1] at hr
+    | some e1 =>
+      simp only [h1, Option.bind_some] at hr
+      have hn := fwdNode_nested n hp.1 e e1 h1
+      have hrest := fwdKids_nested ns hp.2 e1 r hr
+      simp only [fwdKids, Bool.false_and, Bool.false_eq_true, if_false, Exec.cur, Option.getD_none, hn, Exec.after,
+        Bool.or_self]
+      exact hrest
+end
+
+/-- **nested_runs_as_flattening** — a nested sequence with default options computes what the flat list
+of its modules computes (`run`), on the input object itself; with the theorems on `run` this covers
+nested sequentials of any depth. -/
+theorem nested_runs_as_flattening (kids : List Node) (hp : PlainNodes kids) (e r : Env)
+    (h : run (flatNodes kids) e = some r) :
+    fwdNode false (.seq kids none none false) e = .ok { arg := r, fresh := none } :=
+  fwdNode_nested (.seq kids none none false) (by simp [PlainNode, hp]) e r (by simpa [flatNode] using h)
 
 end TdVerif.Props.C14
 
